@@ -180,8 +180,10 @@ static void op_lsr(int which, size_t n, unsigned long seed, int fl)
   gfree(src); gfree(dst);
 }
 
+/* hist: 0 = soxr_create at 1:1; 1 ("-clr") = the same, a few frames processed, soxr_clear(), then the run;
+   2 ("-lazy") = soxr_create(0, 0, ...) and soxr_set_io_ratio(s, 1, 0) (deferred initialisation, as soxr-lsr.c does). */
 static void op_api(int eng_d, int itype, int otype, int isplit, int osplit, int dith, size_t n, unsigned ch,
-    unsigned long seed, int fl)
+    unsigned long seed, int fl, int hist)
 {
   soxr_error_t err = 0;
   soxr_io_spec_t io = soxr_io_spec((soxr_datatype_t)(itype | (isplit? SOXR_SPLIT : 0)), (soxr_datatype_t)(otype | (osplit? SOXR_SPLIT : 0)));
@@ -204,8 +206,15 @@ static void op_api(int eng_d, int itype, int otype, int isplit, int osplit, int 
   }
   if (osplit) for (c = 0; c < ch; ++c) ob[c] = galloc(cap_out * osz), op[c] = ob[c].p;
   else ob[0] = galloc(cap_out * ch * osz);
-  s = soxr_create(1, 1, ch, &err, &io, &q, &rt);
+  s = hist == 2? soxr_create(0, 0, ch, &err, &io, &q, &rt) : soxr_create(1, 1, ch, &err, &io, &q, &rt);
   if (!s) {printf("ERR create %s\n", err? err : "?"); goto done;}
+  if (hist == 2 && (err = soxr_set_io_ratio(s, 1., 0))) {printf("ERR set_io_ratio %s\n", err); soxr_delete(s); goto done;}
+  if (hist == 1) {
+    size_t warm = n < 5? n : 5;
+    soxr_process(s, isplit? (void *)ip : ib[0].p, warm, &idone, osplit? (void *)op : ob[0].p, cap_out, &odone);
+    if ((err = soxr_clear(s))) {printf("ERR clear %s\n", err); soxr_delete(s); goto done;}
+    *soxr_num_clips(s) = 0;
+  }
   s->seed = seed;
   set_stale_flag(fl);
   err = soxr_process(s, isplit? (void *)ip : ib[0].p, n, &idone, osplit? (void *)op : ob[0].p, cap_out, &odone);
@@ -331,7 +340,8 @@ int main(void)
     } else if (!strncmp(kern, "api-", 4) && strlen(kern) >= 15) {
       int it = tcode((char[]){kern[6], kern[7], kern[8], 0}), ot = tcode((char[]){kern[10], kern[11], kern[12], 0});
       if (it < 0 || ot < 0 || ch < 1 || ch > 32) {printf("ERR bad kernel\n"); continue;}
-      op_api(kern[4] == 'd', it, ot, kern[14] == 's', kern[15] == 's', !!strstr(kern, "-dith"), n, ch, seed, fl);
+      op_api(kern[4] == 'd', it, ot, kern[14] == 's', kern[15] == 's', !!strstr(kern, "-dith"), n, ch, seed, fl,
+          strstr(kern, "-clr")? 1 : strstr(kern, "-lazy")? 2 : 0);
     } else printf("ERR bad kernel\n");
     fflush(stdout);
   }
